@@ -68,6 +68,13 @@ impl SecondaryTransaction {
         read_only: bool,
         update: bool,
     ) -> StorageResult<Self> {
+        // Take the delete lock before pinning a snapshot. Otherwise a txn that waited for a
+        // compaction to finish would work on the snapshot from before that compaction.
+        let delete_lock = if update {
+            Some(table.lock_for_deletion().await)
+        } else {
+            None
+        };
         // pin a snapshot at version manager
         let pin_version = table.version.pin();
         Ok(Self {
@@ -77,11 +84,7 @@ impl SecondaryTransaction {
             table: table.clone(),
             version: table.version.clone(),
             snapshot: pin_version.snapshot.clone(),
-            delete_lock: if update {
-                Some(table.lock_for_deletion().await)
-            } else {
-                None
-            },
+            delete_lock,
             to_be_committed_rowsets: vec![],
             read_only,
             total_size: 0,
